@@ -8,6 +8,7 @@
 static int g_stride, g_maxlen, g_mode, g_allvals;
 static u8 g_rawdict[512];
 static long n_decodes, n_accepted;
+static int* g_sel; static int g_nsel;
 
 static void init(void) {
     g_stride = (int)vx_opt_int("--stride", 8); g_maxlen = (int)vx_opt_int("--maxlen", 300); g_mode = (int)vx_opt_int("--mode", 0); g_allvals = (int)vx_opt_int("--allvals", 64);
@@ -17,6 +18,9 @@ static void init(void) {
     for (int i = 0; i < g_nrec; i++) if (g_rec[i].clen + 64 > g_ample) g_ample = g_rec[i].clen + 64;
     g_tmp = (u8*)malloc(g_ample);
     fill_text(g_rawdict, sizeof g_rawdict, 5);
+    /* every stride-th record, plus always: the compressor-made streams, the legacy seeds and the families built for a specific decoder shortcut */
+    g_sel = (int*)malloc(sizeof(int) * (size_t)g_nrec);
+    for (int i = 0; i < g_nrec; i++) if (i % g_stride == 0 || i >= g_nrec - 12 || !strncmp(g_rec[i].name, "rawtail", 7) || !strncmp(g_rec[i].name, "legacy", 6) || !strncmp(g_rec[i].name, "hdr cks", 7)) g_sel[g_nsel++] = i;
 }
 
 #define CHECK_RET(what, r, cap) do { if (!ZSTD_isError(r) && (r) > (cap)) { vx_fail("%s returned %zu > capacity %zu", what, (size_t)(r), (size_t)(cap)); return 1; } } while (0)
@@ -51,6 +55,7 @@ static int run_all(const u8* in0, size_t n, const u8* dict, size_t dictLen, size
     }
     /* streaming: whole, byte-by-byte, split at the middle; small and ample output; zero-progress watchdog */
     for (int seg = 0; seg < 3 && !rc; seg++) for (int oc = 0; oc < 2 && !rc; oc++) {
+        if (oc == 0 && expectLen > 700) continue;          /* 1-byte outputs for large contents would only cost time */
         ZSTD_DCtx* d = ZSTD_createDCtx(); if (dict) ZSTD_DCtx_loadDictionary(d, dict, dictLen);
         size_t cap = oc ? expectLen + 1000 : 1; u8* dst = (u8*)malloc(cap);
         size_t pos = 0; int idle = 0;
@@ -123,9 +128,27 @@ static void body(void) {
         vx_obs_u64((uint64_t)((hi * 256 + lo) * 4 + pre)); vx_obs_u64((uint64_t)n_accepted); vx_nontrivial(); vx_stat_add("decodes", n_decodes); vx_stat_add("mutants_accepted", n_accepted); n_decodes = n_accepted = 0;
         return;
     }
-    int ncat = g_nrec - 12, nsel = (ncat + g_stride - 1) / g_stride;
-    int w = vx_choose(nsel + 12);
-    int idx = (w < nsel) ? w * g_stride : ncat + (w - nsel); if (idx >= g_nrec) idx = g_nrec - 1;
+    if (g_mode == 2) {
+        /* valid frames whose last block keeps raw literals followed by a sequences section of every small size, with every
+         * length of the last literal run: the decoder may reference such literals in place only when enough readable
+         * bytes follow them inside the input (wildcopy over-length) - input buffers are exact-size heap copies */
+        int k = 1 + vx_choose(26), L = vx_choose(110), t = vx_choose(3), ck = vx_choose(2);
+        vx_label("rawlit k=%d L=%d tail=%d ck=%d", k, L, t, ck);
+        static u8 src[4096], frame[8192]; size_t n = 0; uint32_t s = 7;
+        for (int i = 0; i < 64; i++) { s = s * 1103515245u + 12345u; src[n++] = (u8)(s >> 16); }
+        for (int i = 0; i < k - 1; i++) { s = s * 1103515245u + 12345u; src[n++] = (u8)(s >> 16); src[n++] = (u8)(s >> 8); memcpy(src + n, src + 3 + (i * 5) % 50, 5 + (size_t)(i % 3)); n += 5 + (size_t)(i % 3); }
+        for (int i = 0; i < L; i++) { s = s * 1103515245u + 12345u; src[n++] = (u8)(s >> 16); }
+        memcpy(src + n, src + 10, 7); n += 7;
+        for (int i = 0; i < (t == 0 ? 0 : t == 1 ? 1 : 5); i++) { s = s * 1103515245u + 12345u; src[n++] = (u8)(s >> 16); }
+        ZSTD_CCtx* c = ZSTD_createCCtx(); ZSTD_CCtx_setParameter(c, ZSTD_c_compressionLevel, 1); ZSTD_CCtx_setParameter(c, ZSTD_c_literalCompressionMode, ZSTD_ps_disable);
+        ZSTD_CCtx_setParameter(c, ZSTD_c_checksumFlag, ck); ZSTD_CCtx_setParameter(c, ZSTD_c_minMatch, 4);
+        size_t fl = ZSTD_compress2(c, frame, sizeof frame, src, n); ZSTD_freeCCtx(c);
+        if (ZSTD_isError(fl)) { vx_fail("setup compression failed"); return; }
+        run_all(frame, fl, NULL, 0, n);
+        vx_obs_u64(vx_hash(frame, fl)); vx_nontrivial(); vx_stat_add("decodes", n_decodes); n_decodes = n_accepted = 0;
+        return;
+    }
+    int idx = g_sel[vx_choose(g_nsel)];
     const rec_t* r = &g_rec[idx];
     vx_label("rec#%d %s ;; len=%zu content=%zu dict=%zu", idx, r->name, r->flen, r->clen, r->dlen);
     if ((int)r->flen > g_maxlen) { vx_obs_u64(1); return; }
@@ -133,8 +156,9 @@ static void body(void) {
     const u8* dict = r->dlen ? r->dict : NULL;
     /* intact, every truncation, every single-byte substitution */
     if (run_all(r->frame, r->flen, dict, r->dlen, r->clen)) goto done;
-    for (size_t k = 0; k < r->flen; k++) if (run_all(r->frame, k, dict, r->dlen, r->clen)) goto done;
-    for (size_t p = 0; p < r->flen; p++) {
+    int family = !strncmp(r->name, "rawtail", 7) || r->clen > 4096;      /* ~800 near-identical frames, and frames regenerating a lot: intact decode, truncations, thinned substitutions */
+    for (size_t k = 0; k < r->flen; k += (family && k + 48 < r->flen ? 8 : 1)) if (run_all(r->frame, k, dict, r->dlen, r->clen)) goto done;
+    for (size_t p = 0; p < r->flen; p += (family && p + 48 < r->flen ? 16 : 1)) {
         int all = (int)r->flen <= g_allvals;
         static const int few[] = {0x01, 0x80, 0xFF, 0x7F, 0x10, 0xFE, 0x02};
         for (int k = 0; k < (all ? 255 : 7); k++) {
